@@ -122,6 +122,15 @@ def check_metrics(inp):
     want[d] = b
     if not np.allclose(r, want):
       return 'PerDomainMetric row d is not the base metric on domain d'
+  # an infinite per-example loss (target class under a -inf logit) stays in its own domain
+  if n >= 2:
+    pdl = M.PerDomainMetric(M.CrossEntropyLoss(), num_domains=3)
+    sc = np.zeros(n, np.float32)
+    sc[0] = -np.inf
+    st = pdl.evaluate_example({'y': jnp.asarray(0), 'domain_id': jnp.asarray(1)}, jnp.asarray(sc))
+    acc = np.asarray(st.accum)
+    if not (np.isinf(acc[1]) and acc[0] == 0 and acc[2] == 0):
+      return f'PerDomainMetric: an infinite loss in domain 1 leaks into the other domains: accum = {acc.tolist()} (expected [0, inf, 0])'
 
 
 def sweep_metrics(tier, seed):
